@@ -216,6 +216,10 @@ func retLeLen(b *core.Bounds, v ssa.Value, param ssa.Value, at ssa.Instruction) 
 	if c, ok := core.ConstInt(v); ok {
 		return c <= 0 || b.LenAtLeast(param, at, core.Term{K: c})
 	}
+	// the value itself is bounded by a dominating guard len(param) ≥ v (e.g. a size chosen per branch and then checked once)
+	if b.LenAtLeast(param, at, core.Term{V: v}) {
+		return true
+	}
 	switch x := v.(type) {
 	case *ssa.Phi:
 		for i, ed := range x.Edges {
